@@ -234,7 +234,7 @@ func c19PlacePlain(w *fw.W, kd c19GlobalKind, mc c19MoveCase, runs bool, args []
 // the placement's name in finding keys; wdef the definition inside its
 // wrapper(s).  plain returns the plain program's shape name and finding keys
 // for the same count (evaluated only when needed).
-func c19JudgePlaced(w *fw.W, mc c19MoveCase, site c19Site, label, wdef string, wr *c19Wrap, args []string, plain func() (string, map[string]bool)) c19Findings {
+func c19JudgePlaced(w *fw.W, mc c19MoveCase, site c19Site, label, wdef string, wr *c19Wrap, args []string, sampled bool, plain func() (string, map[string]bool)) c19Findings {
 	kd := c19GlobalKinds[mc.Kind]
 	placed := c19Shape{Name: kd.Name + "-placed:" + label, Uses: kd.Uses, Defun: kd.Defun}
 	tmpl := c19ApplyWrap(site.Build(wdef), wr)
@@ -245,7 +245,11 @@ func c19JudgePlaced(w *fw.W, mc c19MoveCase, site c19Site, label, wdef string, w
 	if reach := c19LastReach; reach != "" {
 		// what the evaluator did with the definition, against what the site declares
 		reachesShadow := strings.HasPrefix(reach, "shadow")
-		w.SetAdd("definition_placement_reach:"+kd.Name, label+" -> "+map[bool]string{true: "shadow", false: "builtin"}[reachesShadow])
+		set := "definition_placement_reach:"
+		if sampled {
+			set = "definition_placement_reach_sampled:"
+		}
+		w.SetAdd(set+kd.Name, label+" -> "+map[bool]string{true: "shadow", false: "builtin"}[reachesShadow])
 		if reachesShadow != site.Runs {
 			out.add("harness-placement:"+site.Name, "a site's declaration (definition evaluated before the call or not) disagrees with the binding the call reaches (harness bug unless the evaluator changed, not a linter finding)",
 				fmt.Sprintf("template:\n%s\ndeclared runs-before-call=%v, reach %s", strings.Replace(tmpl, c19Mark, "<target>", 1), site.Runs, reach))
@@ -307,7 +311,7 @@ func c19RunPlaceCase(w *fw.W, mc c19MoveCase) {
 		wdef := pl.Wrap.apply(def, mc.Target)
 		for k := 0; k <= c19ShadowMaxK; k++ {
 			args := c19Ints(k, 101)
-			fnd.merge(c19JudgePlaced(w, mc, pl.Site, pl.name(), wdef, nil, args, func() (string, map[string]bool) {
+			fnd.merge(c19JudgePlaced(w, mc, pl.Site, pl.name(), wdef, nil, args, false, func() (string, map[string]bool) {
 				mk := memoKey{pl.Site.Runs, k}
 				if _, ok := memo[mk]; !ok {
 					n, keys := c19PlacePlain(w, kd, mc, pl.Site.Runs, args)
@@ -366,9 +370,9 @@ func c19RandomPlacement(w *fw.W, r *fw.RNG) {
 		return plainName, plainKeys
 	}
 	var fnd c19Findings
-	got := c19JudgePlaced(w, mc, site, label, wdef, wr, args, plain)
+	got := c19JudgePlaced(w, mc, site, label, wdef, wr, args, true, plain)
 	if len(got.keys) > 0 {
-		bare := c19JudgePlaced(w, mc, site, label, wdef, nil, c19Ints(k, 101), plain)
+		bare := c19JudgePlaced(w, mc, site, label, wdef, nil, c19Ints(k, 101), true, plain)
 		fnd.merge(got, func(key string) string {
 			if _, ok := bare.summary[key]; ok || wr.label() == "" {
 				return ""
